@@ -1,7 +1,7 @@
 /-
 C17 — deserializing any proto terminates with an error or a consistent IR (model `IrVerif.Scope`).
 -/
-import IrVerif.Lemmas.ScopeWF
+import IrVerif.Lemmas.ScopeTree
 namespace IrVerif.Scope
 
 /-- **C17_total**: `deserialize` is a total function on every `GraphP`, with no well-formedness
@@ -50,6 +50,9 @@ structure Consistent (w : World) : Prop where
   /-- graph inputs and initializers have no producing node -/
   roots : ∀ g ∈ grecsG w.root,
     (∀ v ∈ g.inputs, (w.st.vals v).producer = none) ∧ (∀ v ∈ g.inits, (w.st.vals v).producer = none)
+  /-- in every graph of the tree: each listed node carries `node.graph = ` that graph, every
+      initializer is keyed by the name of its value, keys are distinct (`TreeOKG`) -/
+  tree : TreeOKG w.st w.root
 
 theorem mem_slotsOf (v nid : Nat) (ins : List (Option Nat)) :
     ∀ (j : Nat) (n i : Nat), (n, i) ∈ slotsOf v nid j ins ↔ n = nid ∧ j ≤ i ∧ ins[i - j]? = some (some v) := by
@@ -153,7 +156,9 @@ theorem usesIn_nodup (v : Nat) (R : List NRec) (h : (R.map (·.id)).Nodup) : (us
     rw [List.mem_map]
     exact ⟨r', hr', by rw [hid, ha.1]⟩
 
-theorem Inv.consistent {st : Store} {g : GraphT} (h : Inv st (recsG g) (grecsG g)) : Consistent ⟨st, g⟩ where
+theorem Inv.consistent {st : Store} {g : GraphT} (h : Inv st (recsG g) (grecsG g)) (ht : TreeOKG st g) :
+    Consistent ⟨st, g⟩ where
+  tree := ht
   use_of_input := fun r hr i v hi => by
     show (r.id, i) ∈ (st.vals v).uses
     rw [h.u v, mem_usesIn]
@@ -211,6 +216,28 @@ theorem C17_consistent (p : GraphP) (w : World) (h : deserialize p = .ok w) : Co
     subst h
     have := deserGraph_links p {} [] st g [] [] (fun _ _ => rfl) (fun _ ht => by simp at ht) Inv.empty hg
     simp only [List.nil_append] at this
-    exact this.consistent
+    exact this.consistent (deserGraph_tree p {} [] st g (fun _ _ => rfl) (fun _ ht => by simp at ht) hg)
+
+/-! ### non-vacuity -/
+
+/-- input `x`, initializer `w` (with an empty value_info entry), node `A(x, w, "", ghost) -> y, ""`
+    with a subgraph using `y`, the later-declared `t` and the unknown `q`; node `B() -> t`. -/
+def exampleProto : GraphP :=
+  .mk [⟨"x", { ty := some "f32", sh := some "[2]" }⟩] [⟨"w", "d0", "f32", "[2]"⟩]
+    [⟨"y", { ty := some "f32" }⟩, ⟨"w", {}⟩]
+    [ .mk ["x", "w", "", "ghost"] ["y", ""]
+        [ .mk [] [] [] [ .mk ["y", "t", "q"] ["r"] [] ] [⟨"r", {}⟩] ],
+      .mk [] ["t"] [] ]
+    [⟨"y", { ty := some "f32" }⟩]
+
+def isOkB {ε α : Type} : Except ε α → Bool
+  | .ok _ => true
+  | .error _ => false
+
+/-- the hypothesis of `C17_consistent` is satisfiable (placeholders, nested scope, unsorted order) -/
+example : isOkB (deserialize exampleProto) = true := by decide +kernel
+
+/-- and deserialization does reject: an output name declared twice in one scope -/
+example : isOkB (deserialize (.mk [] [] [] [.mk [] ["a", "a"] []] [])) = false := by decide +kernel
 
 end IrVerif.Scope
